@@ -10,4 +10,33 @@ var props = map[string]propCfg{
 			"non-ASCII text is only required to survive under convert-meta off, input-meta on, output-meta on (the statement's 'usual UTF-8 meta settings')",
 			"the pty and the kernel line discipline in raw mode deliver bytes unchanged",
 		}},
+	"C10": {ID: "C10", Level: "fault_enumeration",
+		Tests: []testCfg{{Name: "TestC10", Quick: 1600, Thorough: 32000, QShards: 16, TShards: 16}},
+		Fuzz:  []fuzzCfg{{Name: "FuzzC10File", Secs: 90}},
+		Assumptions: []string{
+			"a process death during the single O_APPEND write leaves a prefix of the record (no fsync / power-loss claim)",
+			"lines are valid UTF-8; blank lines are documented not to be stored; time stamps are not compared",
+			"'returned' is read modulo surrounding whitespace and consecutive duplicates (both sides collapsed)",
+		}},
+	"C12": {ID: "C12", Level: "exploration",
+		Tests: []testCfg{{Name: "TestC12", Quick: 24000, Thorough: 400000, QShards: 8, TShards: 16}},
+		Fuzz:  []fuzzCfg{{Name: "FuzzC12Parse", Secs: 120}},
+		Assumptions: []string{
+			"inputs are bounded (<= ~1 MiB) so the 10 s watchdog is orders of magnitude above honest work",
+			"the parse runs in the child process (cmd/rlapp) with debug.SetMaxStack(64 MiB)",
+		}},
+	"C13": {ID: "C13", Level: "exploration",
+		Tests: []testCfg{{Name: "TestC13", Quick: 40000, Thorough: 800000, QShards: 8, TShards: 16}},
+		Fuzz:  []fuzzCfg{{Name: "FuzzC13Conds", Secs: 90}},
+		Assumptions: []string{
+			"only well-formed programs in the documented notation; upper-case key names only under Control-; term names without '-'; application names compared case-insensitively",
+			"which keymap an $include inherits/leaves is not stated: included files set their own keymap first and the includer re-issues its own after",
+			"sequences compared modulo Meta-x == ESC x, the one equivalence the library documents",
+		}},
+	"C19": {ID: "C19", Level: "exploration",
+		Tests: []testCfg{{Name: "TestC19", Quick: 200000, Thorough: 4000000, QShards: 4, TShards: 16}},
+		Fuzz:  []fuzzCfg{{Name: "FuzzC19Codec", Secs: 90}},
+		Assumptions: []string{
+			"domain = runes 0x00-0xFF plus printable Unicode (unicode.IsPrint); non-printable runes above 0xFF are outside the statement",
+		}},
 }
